@@ -427,8 +427,12 @@ def check_history(case, deep_every=1):
                         what = "mutation of one tree is observable through another tree (clone not isolated)"
                     F.append({"kind": "hist:content", "what": what, "step": si, "op": op, "tree": ti, "impl": acc[:50], "ref": want[:50], "sig": what})
                     return F
-                if len(tr) != len(want):
-                    F.append({"kind": "hist:len", "what": "len() differs from the number of elements", "step": si, "op": op, "tree": ti, "impl": len(tr), "sig": "len"})
+                try:
+                    ln = len(tr)
+                except Exception as e:  # noqa  (e.g. a negative size)
+                    ln = "len() raised " + type(e).__name__ + ": " + str(e)
+                if ln != len(want):
+                    F.append({"kind": "hist:len", "what": "len() differs from the number of elements", "step": si, "op": op, "tree": ti, "impl": ln, "sig": "len"})
                     return F
                 probs = structure_problems(tr.root, rt.t)
                 if probs:
@@ -451,6 +455,8 @@ def oracle(ctx, kind, case, out):
         return lib.with_watchdog(check_history, case, 1 if n < 400 else 7, seconds=CASE_TIMEOUT)
     except lib.Hang:
         return [{"kind": "hist:hang", "what": "implementation did not terminate while the history was replayed", "sig": "hang"}]
+    except Exception as e:  # noqa - the walkers read private structure; a corrupted tree must not stop the check
+        return [{"kind": "hist:replay", "what": "replaying the history next to the reference raised " + type(e).__name__ + ": " + str(e)[:200], "sig": "replay-exc"}]
 
 
 # ------------------------------------------------------------------ generators
@@ -776,13 +782,112 @@ def wfb_cases(ctx, histories):
         except lib.Hang:
             continue
         for tr in w.trees:
-            if len(tr) <= 700:
-                yield "wfb", [30, tr.t, dump_node(tr.root)]
+            try:
+                d = dump_node(tr.root)
+            except Exception:  # noqa - a corrupted structure is reported through the histories
+                continue
+            if len(repr(d)) <= 20000:
+                yield "wfb", [30, tr.t, d]
+
+
+def targeted_cases(ctx):
+    """small deterministic families around two easily missed spots: copy-on-write through a FULL
+    shared node, and cursors parked on keys that are falsy in Python (0)"""
+    v = [1000]
+
+    def fresh():
+        v[0] += 1
+        return v[0]
+
+    for t in (3, 4, 5):
+        mx = 2 * t - 1
+        for nkeys in (mx, mx + 1, 2 * mx + 1, 3 * mx + 2, mx * (mx + 1)):
+            for io in (0, 1):
+                build = [[NEW, t, io]] + [[INS, 0, 10 * k, fresh(), io] for k in range(nkeys)]
+                for probe in sorted({5, 10 * (nkeys // 2) + 5, 10 * nkeys + 5, -5, 10 * (mx // 2) + 5}):
+                    # insert a NEW key into clones of the frozen tree, then re-read everything
+                    yield "cow-full", [0] + build + [[FREEZE, 0], [CLONE, 0, io], [COPY, 0], [INS, 1, probe, fresh(), io], [DSET, 2, probe + 1, fresh()],
+                                                 [ITEMS, 0], [LEN, 0], [ITEMS, 1], [ITEMS, 2], [DUMP, 0], [DUMP, 1], [DUMP, 2],
+                                                 [DEL, 1, 10 * (nkeys // 2)], [ITEMS, 0], [ITEMS, 2], [DUMP, 0]]
+    for t in (3, 4):
+        for nkeys in (1, 3, 2 * t - 1, 2 * t, 4 * t):
+            build = [[NEW, t, 0]] + [[INS, 0, k, fresh(), 0] for k in range(nkeys)] + [[CUR, 0]]
+            for start in ([[SEEK, 0, 0, 1]], [[SEEK, 0, 0, 0]], [[FIRST, 0], [NEXT, 0]], [[SEEK, 0, 1, 1], [PREV, 0]], [[SEEK, 0, 0, 1], [NEXT, 0], [PREV, 0]]):
+                for mut in ([[INS, 0, -1, fresh(), 0]], [[INS, 0, -2, fresh(), 0], [INS, 0, -1, fresh(), 0]], [[DEL, 0, 0]], [[DEL, 0, 1]],
+                            [[INS, 0, nkeys + k, fresh(), 0] for k in range(2 * t)], [[DEL, 0, k] for k in range(1, nkeys)]):
+                    for walk in ([NEXT, NEXT, PREV], [PREV, NEXT, NEXT]):
+                        yield "cursor-falsy-key", [0] + build + start + mut + [[w, 0] for w in walk] + [[ITEMS, 0]]
+
+
+def targeted_cases2(ctx):
+    """copy-on-write on every delete path (steal / merge / successor replacement through shared
+    nodes), in-order optimisation stealing into a shared left sibling, cursors on a three-level
+    tree, the BTreeSet API"""
+    v = [5000]
+
+    def fresh():
+        v[0] += 1
+        return v[0]
+
+    for t in (3, 4):
+        for nkeys in (2 * t, 3 * t + 1, 6 * t - 1, 8 * t + 2, (2 * t) * (2 * t) + 1):
+            orders = {"asc": list(range(nkeys)), "desc": list(range(nkeys - 1, -1, -1)),
+                      "mid": sorted(range(nkeys), key=lambda k: (abs(k - nkeys // 2), k))}
+            for oname, order in orders.items():
+                # ascending builds leave the big node on the right (right steals), descending ones on
+                # the left (left steals), middle-out ones in the middle
+                build = [[NEW, t, 0]] + [[INS, 0, 10 * k, fresh(), 0] for k in order]
+                step = (1 if nkeys <= 30 else 3) * (1 if oname == "asc" else 2)
+                for k in range(0, nkeys, step):
+                    # delete one key from a fresh clone (every node on the path is still shared)
+                    yield "cow-delete", [0] + build + [[FREEZE, 0], [CLONE, 0, 0], [CLONE, 0, 0], [DEL, 1, 10 * k], [DEL, 1, 10 * k + 5],
+                                                       [ITEMS, 0], [ITEMS, 2], [LEN, 0], [DUMP, 0], [DUMP, 1], [DEL, 2, 10 * ((k + 1) % nkeys)], [ITEMS, 0], [DUMP, 0]]
+            build = [[NEW, t, 0]] + [[INS, 0, 10 * k, fresh(), 0] for k in range(nkeys)]
+            # ascending in_order inserts into a clone of a tree built WITHOUT the optimisation
+            yield "cow-inorder", [0] + build + [[FREEZE, 0], [CLONE, 0, 1]] + [[INS, 1, 10 * nkeys + j, fresh(), 1] for j in range(4 * t)] +                 [[INS, 1, 10 * (nkeys // 2) + j, fresh(), 1] for j in range(1, 6)] + [[ITEMS, 0], [DUMP, 0], [DUMP, 1], [LEN, 1]]
+    t = 3
+    nkeys = 26
+    build = [[NEW, t, 0]] + [[INS, 0, 2 * k, fresh(), 0] for k in range(nkeys)] + [[CUR, 0]]
+    for k in range(-1, 2 * nkeys + 1):
+        for before in (0, 1):
+            yield "cursor-3level", [0] + build + [[SEEK, 0, k, before]] + [[NEXT, 0]] * 3 + [[PREV, 0]] * 5 + [[NEXT, 0]] * 2
+    for t in (3, 5):
+        for io in (0, 1):
+            ops = [[NEWSET, t, io]]
+            for k in (5, 1, 9, 3, 7, 1, 11, 0, 13, 2, 15, 4, 17, 6):
+                ops += [[SADD, 0, k], [SIN, 0, k], [SIN, 0, k + 100]]
+            ops += [[LEN, 0], [ITER, 0], [CUR, 0], [SEEK, 0, 4, 1], [NEXT, 0], [SDISC, 0, 5], [NEXT, 0], [SDISC, 0, 99], [LEN, 0],
+                    [FREEZE, 0], [SADD, 0, 50], [SDISC, 0, 1], [COPY, 0], [SADD, 1, 50], [SDISC, 1, 0], [ITER, 0], [ITER, 1], [DUMP, 0], [DUMP, 1]]
+            yield "set-api", [0] + ops
+    for t in (3, 4, 5, 127):
+        for io in (0, 1):
+            # BTreeDict mapping API incl. KeyError, replacement, len, iteration, frozen / clone rules
+            ops = [[NEW, t, io]]
+            for k in (5, 1, 9, 3, 7, 1, 11, 0, 13, 2, 15, 4, 17, 6, 5):
+                ops += [[DSET, 0, k, fresh()], [DGET, 0, k], [DGET, 0, k + 100], [LEN, 0]]
+            ops += [[DDEL, 0, 99], [DDEL, 0, 5], [DDEL, 0, 5], [DGET, 0, 5], [ITER, 0], [ITEMS, 0], [LEN, 0],
+                    [CLONE, 0, 0], [COPY, 0], [NEW, 2, 0], [NEW, 0, 0], [FREEZE, 0], [FREEZE, 0], [DSET, 0, 1, fresh()], [DDEL, 0, 1], [DEL, 0, 1],
+                    [DELX, 0, 1, 1], [INS, 0, 77, fresh(), 0], [DGET, 0, 1], [CLONE, 0, io], [DSET, 1, 1, fresh()], [DDEL, 1, 3], [DGET, 0, 1],
+                    [DGET, 0, 3], [DGET, 1, 3], [CLONE, 1, 0], [FREEZE, 1], [CLONE, 1, 0], [ITEMS, 0], [ITEMS, 1], [ITEMS, 2], [LEN, 2]]
+            yield "dict-api", [0] + ops
+    for t in (3, 4, 5):
+        for n in (2 * t - 1, 2 * t, 6 * t, 30 * t):
+            # ascending insertion with the in-order optimisation: left siblings are filled up
+            ops = [[NEW, t, 1]]
+            for k in range(n):
+                ops.append([INS, 0, k, fresh(), 1])
+                if k % max(1, n // 6) == 0:
+                    ops.append([DUMP, 0])
+            ops += [[INS, 0, k + 0, fresh(), 1] for k in range(0, n, 3)]  # replacements
+            ops += [[DUMP, 0], [ITEMS, 0] if n <= 100 else [LEN, 0], [LEN, 0]] + [[DEL, 0, k] for k in range(0, n, 2)] + [[DUMP, 0], [LEN, 0]]
+            yield "inorder-asc", [0] + ops
 
 
 def cases(ctx):
     rng = ctx.rng
     hist = []
+    yield from targeted_cases(ctx)
+    yield from targeted_cases2(ctx)
     # exhaustive small scopes at t = 3
     yield from exhaustive_cases(ctx, 3, ctx.n(6, 7))
     if ctx.tier == "thorough":
